@@ -11,9 +11,11 @@ import NV.Driver.Upfault
 import NV.Driver.Discovery
 import NV.Driver.Config
 import NV.Driver.Cache
+import NV.Driver.Fwd
+import NV.Driver.Prof
 namespace NV
 
-def steppers : List (List String → Option String) := [stepCore, stepCap, stepRaceSoak, stepListen, stepUpfault, Disc.stepDiscovery, Config.stepConfig, stepCache]
+def steppers : List (List String → Option String) := [stepCore, stepCap, stepRaceSoak, stepListen, stepUpfault, Disc.stepDiscovery, Config.stepConfig, stepCache, stepFwd, stepProf]
 
 def step (line : String) : String :=
   let toks := line.splitOn " "
